@@ -139,14 +139,22 @@ pub fn response(framing: Framing, payload: &[u8], chunks: &[usize], deco: Deco, 
     let mut wire;
     match framing {
         Framing::Length => {
-            let cl = if deco == Deco::LeadingZeros { format!("{:04}", payload.len()) } else { payload.len().to_string() };
+            let cl = match deco {
+                Deco::LeadingZeros => format!("{:04}", payload.len()),
+                // optional white space behind the value (the head parser strips spaces)
+                Deco::SpaceBeforeCrlf => format!("{}  ", payload.len()),
+                _ => payload.len().to_string(),
+            };
             wire = head("200 OK", &[("Content-Length", &cl)]);
         }
         Framing::Chunked => {
-            // the coding name is case-insensitive: two decorations also vary its spelling (same length)
+            // the coding name is case-insensitive: some decorations also vary the spelling of the field value
             let te = match deco {
                 Deco::Upper => "CHUNKED",
                 Deco::LeadingZeros => "Chunked",
+                // a horizontal tab is optional white space too: behind and in front of the coding name
+                Deco::Ext => "chunked\t",
+                Deco::ExtVal => "\tchunked",
                 _ => "chunked",
             };
             wire = head("200 OK", &[("Transfer-Encoding", te)]);
